@@ -27,7 +27,8 @@ ASSUMPTIONS = ['ideal signature functionality']
 
 TS = [datetime.fromtimestamp(1_600_000_000 + 100 * i, timezone.utc) for i in range(8)]
 CERTIFIER = new_key('certifier', sub=False)
-NOPS = 10
+NOPS = 11
+HELD = []          # public twins taken during a history and kept referenced by the caller
 
 
 def fresh():
@@ -70,7 +71,7 @@ def apply(key, st, op, t):
         uid = key.get_uid('first')
         if uid is not None:
             uid |= key.certify(uid, SignatureType.Positive_Cert, usage={KeyFlags.Certify}, hashes=[HashAlgorithm.SHA384], primary=False, created=t)
-            st.uids['first'].update(flags={KeyFlags.Certify}, primary=False)
+            st.uids['first'].update(flags={KeyFlags.Certify}, primary=False, last='cert')
     elif op == 5:                                       # third-party certification of the first identity
         uid = key.get_uid('first')
         if uid is not None:
@@ -81,6 +82,7 @@ def apply(key, st, op, t):
         if uid is not None:
             uid |= key.revoke(uid, created=t, reason=K.RevocationReason.UserID)
             st.uids[name]['revoked'] = True
+            st.uids[name]['last'] = 'rev'
     elif op == 7:                                       # revoke the first subkey, or the key itself when there is none
         if st.subs:
             sk = key.subkeys[st.subs[0][0]]
@@ -98,6 +100,8 @@ def apply(key, st, op, t):
             st.revoker = True
     elif op == 9:                                       # export and import the private key, continue with the imported object
         key, _ = PGPKey.from_blob(key.__bytes__())
+    elif op == 10:                                      # derive the public twin now and keep holding on to it
+        HELD.append(key.pubkey)
     return key
 
 
@@ -151,8 +155,11 @@ def consistent(key, st):
             revs = [s for s in u._signatures if s.type == SignatureType.CertRevocation]
             if bool(revs) != want['revoked']:
                 return False
-            # (a revoked identity's most recent self-signature is the revocation itself: its flags are moot)
-            if not want['revoked'] and (set(u.selfsig.key_flags) != want['flags'] or bool(u.is_primary) != want['primary']):
+            # a revoked identity's most recent self-signature is the revocation itself (its flags are moot)
+            last_is_rev = want.get('last', 'cert') == 'rev'
+            if (u.selfsig.type == SignatureType.CertRevocation) != last_is_rev:
+                return False
+            if not last_is_rev and (set(u.selfsig.key_flags) != want['flags'] or bool(u.is_primary) != want['primary']):
                 return False
     return True
 
@@ -160,6 +167,7 @@ def consistent(key, st):
 def run_history(ops, ties):
     sigfix.Oracle.multi = True
     sigfix.Oracle.pairs = []
+    del HELD[:]
     try:
         key = fresh()
         st = State()
@@ -177,8 +185,8 @@ def run_history(ops, ties):
 
 @ob('O15.1', 'after a key-management history every self-signature, subkey binding and revocation on the key verifies under its public half - on the private key, its public twin, '
              'a re-imported export and a copy; identities, subkeys, revocations, effective flags and primary mark are those the history produced',
-    'histories of 1..2 (quick) / 3 (thorough) steps over 10 operations {add identity, add image, add signing subkey, add encryption subkey, re-certify with new preferences, third-party certify, '
-    'revoke identity, revoke subkey or key, remove identity / add revoker, export+import}; first two steps in the same second or not', cond_timeout={'q': 290, 't': 1500}, path_timeout=200,
+    'histories of 1..2 (quick) / 3 (thorough) steps over 11 operations {add identity, add image, add signing subkey, add encryption subkey, re-certify with new preferences, third-party certify, '
+    'revoke identity, revoke subkey or key, remove identity / add revoker, export+import, take the public twin and keep it}; first two steps in the same second or not', cond_timeout={'q': 290, 't': 1500}, path_timeout=200,
     partitions={'q': [['n == 1']] + [['n == 2', 'o0 == %d' % a] for a in range(NOPS)],
                 't': [['n == 1']] + [['n == 2', 'o0 == %d' % a] for a in range(NOPS)] + [['n == 3', 'o0 == %d' % a, 'o1 == %d' % b] for a in range(NOPS) for b in range(NOPS)]})
 def history(n: int, o0: int, o1: int, o2: int, ties: bool) -> bool:
@@ -197,5 +205,5 @@ def history(n: int, o0: int, o1: int, o2: int, ties: bool) -> bool:
     return run_history(out, ties)
 
 
-SANITY = ['history(1, %d, 0, 0, False)' % o for o in range(NOPS)] + ['history(2, 0, 6, 0, False)', 'history(2, 2, 7, 0, True)', 'history(3, 0, 8, 9, False)', 'history(3, 4, 9, 4, True)',
+SANITY = ['history(1, %d, 0, 0, False)' % o for o in range(NOPS)] + ['history(3, 10, 2, 6, False)', 'history(3, 10, 0, 8, True)', 'history(2, 6, 9, 0, True)', 'history(3, 0, 6, 9, True)', 'history(2, 0, 6, 0, False)', 'history(2, 2, 7, 0, True)', 'history(3, 0, 8, 9, False)', 'history(3, 4, 9, 4, True)',
                                                                     'history(3, 2, 9, 7, False)', 'history(2, 7, 9, 0, False)', 'history(3, 3, 5, 9, True)']
